@@ -20,7 +20,7 @@
 From Coq Require Import ZArith List Bool Sorted.
 From Geo Require Import Base.GoPrim Gen.CellID Model.CellUnion.
 From Geo Require Import Proofs.C11_Bits Proofs.C11_Cells Proofs.C11_Normalize Proofs.C11_Unique Proofs.C11_Search
-  Proofs.C11_SetOps Proofs.C11_Range Proofs.C11_Checks Proofs.C11_Examples.
+  Proofs.C11_SetOps Proofs.C11_Range Proofs.C11_Checks Proofs.C11_SetOps2 Proofs.C11_Denorm Proofs.C11_Examples.
 Import ListNotations.
 Local Open Scope Z_scope.
 
@@ -177,29 +177,39 @@ Theorem normalize_passes_IsNormalized : forall cu, Forall valid cu -> cu_IsNorma
 Proof. exact C11_Checks.normalize_passes_IsNormalized. Qed.
 Print Assumptions normalize_passes_IsNormalized.
 
-(** * Not yet proved in Coq (checked on every run by search [S] with the independent
-      leaf-interval oracle of harness/cmd/obs/c11, and by correspondence [T] where a model exists).
+(** * Intersection with one cell, Denormalize ------------------------------------ *)
+Theorem intersection_with_cellid_leaves : forall x id, normal x -> valid id ->
+  normal (cu_FromIntersectionWithCellID x id) /\
+  forall t, leaf t -> (cov (cu_FromIntersectionWithCellID x id) t <-> cov x t /\ covers id t).
+Proof. exact intersection_with_cellid_spec. Qed.
+Print Assumptions intersection_with_cellid_leaves.
 
-  TODO denormalize_leaves (model cu_Denormalize exists; missing: induction over iter_next /
-       ChildBeginAtLevel..ChildEndAtLevel, 4^(newLevel-level) consecutive descendants tile the cell):
-    forall cu minLevel levelMod, normal cu -> 0 <= minLevel <= 30 -> 1 <= levelMod <= 3 ->
-      forall x, leaf x -> (cov (cu_Denormalize cu minLevel levelMod) x <-> cov cu x)
-      /\ Forall (fun c => minLevel <= s2_CellID_Level c /\
-                 ((s2_CellID_Level c - minLevel) mod levelMod = 0 \/ s2_CellID_Level c = 30))
-                (cu_Denormalize cu minLevel levelMod).
+Theorem denormalize_leaves_and_levels : forall cu minLevel levelMod,
+  Forall valid cu -> 0 <= minLevel <= 30 -> 1 <= levelMod ->
+  Forall valid (cu_Denormalize cu minLevel levelMod) /\
+  (forall x, leaf x -> (cov (cu_Denormalize cu minLevel levelMod) x <-> cov cu x)) /\
+  (levelMod <= 3 ->
+   Forall (fun c => minLevel <= s2_CellID_Level c /\
+              ((s2_CellID_Level c - minLevel) mod levelMod = 0 \/ s2_CellID_Level c = 30))
+          (cu_Denormalize cu minLevel levelMod)).
+Proof. exact denormalize_spec. Qed.
+Print Assumptions denormalize_leaves_and_levels.
 
-  TODO intersection_with_cellid_leaves (model cu_FromIntersectionWithCellID exists; missing: lowerBound
-       scan + take_upto select exactly the cells of x nested in id, when no cell of x contains id):
-    forall x id, normal x -> valid id -> normal (cu_FromIntersectionWithCellID x id) /\
-      forall t, leaf t -> (cov (cu_FromIntersectionWithCellID x id) t <-> cov x t /\ covers id t).
+Theorem level_is_thirty_minus_height : forall c s, cellform c s -> s2_CellID_Level c = 30 - s.
+Proof. exact level_form. Qed.
+Print Assumptions level_is_thirty_minus_height.
 
-  TODO cell_index_spec (no Coq model; s2/cell_index.go Build + CellIndexRangeIterator +
-       CellIndexContentsIterator + non-empty iteration):
+(** * Not yet proved in Coq (no Coq model; checked on every run by search [S] with the
+      independent leaf-interval oracle of harness/cmd/obs/c11).
+
+  TODO cell_index_spec (s2/cell_index.go Build + CellIndexRangeIterator +
+       CellIndexContentsIterator + non-empty iteration; missing: a state-machine model of Build's
+       delta sort / label stack and of the iterators):
     after Build, the range nodes partition [first leaf, sentinel); for every leaf x, the contents
     iterator started on x's range enumerates exactly {(c,label) added | covers c x}; the non-empty
     iterator skips exactly the ranges with no contents; StartUnion reports each (cell,label) once
     over an increasing sweep.
 
-  TODO find_spec (no Coq model; s2/s2intersect/s2intersect.go Find):
+  TODO find_spec (s2/s2intersect/s2intersect.go Find; missing: a model of the limit sweep):
     for normalized unions cus, Find cus returns for each index set S with |S| >= 2 that occurs exactly
-    the leaves covered by precisely the unions in S, as a normalized union; nothing else. *)
+    the leaves covered by precisely the unions in S, as a normalized non-empty union; nothing else. *)
